@@ -48,6 +48,13 @@ def finding_of(row, paths, accs):
     return fid
 
 
+def broken_name(row, fid):
+    """A narrow row that is NOT recorded breaks the table theorem.  A recorded row does not (the theorem excuses it);
+    what it refutes is the wideness hypothesis of totals_exact_for_wide_paths for that row, named per row."""
+    c, st, l, sk, pk = row
+    return "all_paths_wide_or_known" if fid is None else f"wide-path:{c}.{st}:{l}"
+
+
 def bases(sk, rng, quick):
     e = P.EDGE[sk] if sk not in P.WIDE else 2 ** 53
     if sk in P.WIDE:
@@ -104,7 +111,7 @@ def run(ctx):
         if obs != want:
             ctx.violation("failing-input", f"{c}.{st}",
                           {"check": "c19_path", "class": c, "state": st, "layout": l, "storage_kind": sk, "path_kind": pk,
-                           "base": 0, "addend": V, "observed": obs[:8], "expected": want[:8], "broken": "all_paths_wide_or_known"},
+                           "base": 0, "addend": V, "observed": obs[:8], "expected": want[:8], "broken": broken_name(row, fid)},
                           finding_id=fid)
         elif fid is None:
             ctx.violation("no-failing-input-found", f"{c}.{st}",
@@ -170,9 +177,9 @@ def run(ctx):
     for row, w in sorted(lost.items()):
         c, st, l, sk, pk = row
         narrow = pk not in P.WIDE
+        fid = finding_of(row, kpaths, kaccs) if narrow else None
         ctx.violation("failing-input", f"{c}.{st}",
-                      {**w, "broken": "all_paths_wide_or_known" if narrow else "totals_exact_for_wide_paths"},
-                      finding_id=finding_of(row, kpaths, kaccs) if narrow else None)
+                      {**w, "broken": broken_name(row, fid) if narrow else "totals_exact_for_wide_paths"}, finding_id=fid)
     stale = [k for k in kpaths if k not in {(c, s, l, pk) for c, s, l, sk, pk in rows}]
     if stale:
         ctx.notes.append(f"stale known-finding paths (not narrow on this tree; path_excuses_are_live fails): {stale[:6]}")
